@@ -1,5 +1,6 @@
 import GoframeModel.Ops.Apply
 import GoframeModel.Step
+import GoframeModel.Lemmas.Apply
 /-
   C17 — Apply results do not depend on worker scheduling.
   Two layers. (1) The collector: whatever order the tagged results arrive in, the table it builds is the
@@ -7,7 +8,7 @@ import GoframeModel.Step
   every complete execution delivers each row index exactly once, so (1) applies to every schedule.
 -/
 namespace Goframe.C17
-open Goframe Frame
+open Goframe Frame ApplyLemmas
 
 /-- results have the frame's width (what "element j into the j-th column" presupposes; callbacks that
 return a shorter slice are outside the property) -/
@@ -21,7 +22,7 @@ indexes gives the result of the sequential loop -/
 theorem collect_perm_invariant (fn : List Cell → ApplyRes) (f : Frame) (σ : List Nat)
     (hσ : σ.Perm (List.range f.nrows)) (hw : WideEnough fn f) :
     f.applyRowWith σ fn = f.applyRowSeq fn := by
-  sorry
+  exact applyRowWith_perm fn f hσ (fun i vs h => by have := hw i; rw [h] at this; exact this)
 
 /-- the sequential result itself: row i of column j holds element j of fn(row i) (slice result), the
 value itself (scalar result), nil (nil result) -/
@@ -34,7 +35,11 @@ theorem applyRow_spec (fn : List Cell → ApplyRes) {f : Frame} {n : Nat} (hr : 
            | .slice vs => vs.getD j .nil
            | .scalar v => v
            | .nilRes => .nil) := by
-  sorry
+  obtain ⟨out, h1, h2, h3, h4⟩ := applyRowSeq_spec fn hr hne (fun i vs h => by have := hw i; rw [h] at this; exact this)
+  refine ⟨out, h1, h2, h3, ?_⟩
+  intro j k c hj i hi
+  obtain ⟨c', hc, hv⟩ := h4 j k c hj i hi
+  exact ⟨c', hc, by rw [hv]; cases fn (rowCells f i) <;> rfl⟩
 
 /-! ### (2) the worker pool -/
 
@@ -59,18 +64,28 @@ inductive PReach : PoolSt → PoolSt → Prop
 /-- every index is in exactly one place at any time -/
 theorem pool_conservation (n : Nat) (s : PoolSt) (h : PReach ⟨List.range n, [], [], []⟩ s) :
     (s.queue ++ s.inWorker ++ s.inChan ++ s.written).Perm (List.range n) := by
-  sorry
+  generalize hs0 : (⟨List.range n, [], [], []⟩ : PoolSt) = s0 at h
+  induction h with
+  | refl => subst hs0; simp
+  | step _ hstep ih =>
+    refine List.Perm.trans ?_ ih
+    cases hstep with
+    | take i q w c d => exact perm_take i q w c d
+    | send i w₁ w₂ q c d => exact perm_send i q w₁ w₂ c d
+    | recv i q w c d => exact perm_recv i q w c d
 
 /-- at completion each row index has been delivered exactly once (in some order) -/
 theorem pool_exactly_once (n : Nat) (s : PoolSt) (h : PReach ⟨List.range n, [], [], []⟩ s)
     (hdone : s.queue = [] ∧ s.inWorker = [] ∧ s.inChan = []) : s.written.Perm (List.range n) := by
-  sorry
+  have := pool_conservation n s h
+  obtain ⟨h1, h2, h3⟩ := hdone
+  simpa [h1, h2, h3] using this
 
 /-- hence: every complete execution of the pool yields the sequential result -/
 theorem applyRow_schedule_free (fn : List Cell → ApplyRes) (f : Frame) (s : PoolSt)
     (h : PReach ⟨List.range f.nrows, [], [], []⟩ s) (hdone : s.queue = [] ∧ s.inWorker = [] ∧ s.inChan = [])
     (hw : WideEnough fn f) : f.applyRowWith s.written fn = f.applyRowSeq fn := by
-  sorry
+  exact collect_perm_invariant fn f s.written (pool_exactly_once f.nrows s h hdone) hw
 
 /-- the cells a column-wise callback result stands for -/
 def colResult (fn : List Cell → ApplyRes) (d : List Cell) : List Cell :=
@@ -83,7 +98,10 @@ def colResult (fn : List Cell → ApplyRes) (d : List Cell) : List Cell :=
 theorem applyCol_spec (fn : List Cell → ApplyRes) {f : Frame} (hne : f ≠ [])
     (hnil : ∀ kc ∈ f, fn kc.2.data ≠ .nilRes) :
     f.applyCol fn = .ok (f.map (fun kc => (kc.1, { name := kc.1, data := colResult fn kc.2.data }))) := by
-  sorry
+  unfold applyCol
+  have : f.isEmpty = false := by cases f <;> simp_all
+  simp only [this]
+  exact applyColAux_eq fn f hnil
 
 /-- a collector that appended results in arrival order instead of writing at the row index WOULD depend
 on the schedule: the mutant is refuted on a two-row frame -/
